@@ -90,6 +90,8 @@ func dispatch(kind string, args []*Sexp) (out *Sexp) {
 	switch kind {
 	case "trace":
 		return runTrace(args)
+	case "addlines":
+		return runAddLines(args)
 	}
 	switch kind {
 	case "evalseq":
